@@ -259,15 +259,15 @@ var _ = ast.NewIdent
 // ---- per-function verification ----
 
 type FuncResult struct {
-	Fn        string
-	Contract  *FuncContract
-	Obls      []*Oblig
-	Notes     []string
-	Assumed   []string
-	Inlined   []string
-	Canary    *Oblig
-	HeapCount int
-	BodyLines int
+	Fn         string
+	Contract   *FuncContract
+	Obls       []*Oblig
+	Notes      []string
+	Assumed    []string
+	Inlined    []string
+	Canary     *Oblig
+	HeapCount  int
+	BodyLines  int
 	UsedFns    []*ssa.Function
 	Closure    bool
 	UsedIfaces []string
@@ -546,7 +546,6 @@ func (eng *Engine) ifaceClausesFor(fn *ssa.Function) []*Clause {
 	return out
 }
 
-
 // encodeLemma: a closed formula over spec functions, literal regular languages and assumed axioms.
 func (eng *Engine) encodeLemma(c *Clause, uses []string) *Oblig {
 	fe := &FuncEnc{eng: eng, pre: &Prelude{declSet: map[string]bool{}}, sorts: newSorts(),
@@ -592,7 +591,6 @@ func (eng *Engine) encodeLemma(c *Clause, uses []string) *Oblig {
 	fe.pre.decls = append(fe.sorts.Decls(), fe.pre.decls...)
 	return o
 }
-
 
 // freeVarReadOnly: the captured variable behind free variable i of closure fn is written only once, by the
 // parent's initialising store in its entry block, and by no closure: its cell content is a constant of the activation.
@@ -651,7 +649,6 @@ func (eng *Engine) freeVarReadOnly(fn *ssa.Function, i int) bool {
 	}
 	return stores <= 1
 }
-
 
 // ifaceNoModFor: does an interface contract that fn implements declare the method read-only (nomod)? Then the
 // implementation inherits the frame obligation even if its own contract does not state it.
